@@ -21,7 +21,9 @@ RULE = ("constant-rich type-directed expression trees (literals, arithmetic, ~, 
         "false at run time (both environment defaults), and in async and sandboxed environments; variants: "
         "optimized=False, all literals lifted into variables, one closed subexpression lifted. distinct = (source, "
         "mode); non-trivial = the model folds something (constant output or a folded subexpression) and the expression "
-        "has >= 3 node kinds.")
+        "has >= 3 node kinds. Oracle-only template stream (outside the Coq model): float constants reaching inf/nan, "
+        "constants that fail to fold inside dead branches (unhashable dict keys, division by zero ...), sameas on equal "
+        "constants, environments with a finalize function x autoescape; distinct = template.")
 
 # (environment mode, env autoescape, volatile, run-time autoescape)
 CONFIGS = [("default", False, False, None), ("default", True, False, None),
@@ -239,6 +241,79 @@ FIXED = [
 ]
 
 
+# ---------------------------------------------------------------- oracle-only template stream
+# classes outside the Coq model (floats, identity tests, finalize, dead branches): checked on the
+# real engine only, same metamorphic oracle
+FLOATS = ["1e308", "10", "1e400", "2.5", "0.0", "1e308 * 10", "-1e308 * 10"]
+DEAD = ['{[1]: 2}|length', '{[1]: 2}', '1 / 0', '[1][5].x', '"a" + 1', '{{}: 1}', '(1, [2]) in {3: 4}', '{"a": 1}[[1]]', '1 % 0']
+SAME = ["1000", '"abc"', "1.5", "(1, 2)", "true", "none", "1", '""', "10 ** 3"]
+
+
+def template_stream(ctx):
+    """(signature, [(label, env_kwargs, template, data)..]) groups whose renders must all agree"""
+    import itertools
+    out = []
+    for a, b in itertools.product(FLOATS, FLOATS):
+        for op in ("*", "-", "+"):
+            e = f"{a} {op} {b}"
+            for form, lform in (("{{ %s }}", "{{ ka %s kb }}"), ("{%% set x = %s %%}{{ x }}", "{%% set x = ka %s kb %%}{{ x }}"),
+                                ("{{ (%s) - (%s) }}", None), ("{{ [%s, 1] }}", None), ("{{ ([%s] + [1])|length }}", None)):
+                t = form % ((e,) * form.count("%s"))
+                grp = [("optimized", {}, t, {}), ("unoptimized", {"optimized": False}, t, {})]
+                if lform and " " not in a and " " not in b:
+                    grp.append(("literals-lifted", {}, lform % op, {"ka": __import__("ast").literal_eval(a), "kb": __import__("ast").literal_eval(b)}))
+                out.append(("C08:float-nonfinite-constant", grp))
+    for d in DEAD:
+        for t in ("{%% if false %%}{{ %s }}{%% endif %%}ok" % d, "{{ 1 if true else (%s) }}" % d, "{{ 0 and (%s) }}" % d,
+                  "{%% if x %%}{{ %s }}{%% endif %%}ok" % d):
+            out.append(("C08:constant-in-dead-branch", [("optimized", {}, t, {"x": 0}), ("unoptimized", {"optimized": False}, t, {"x": 0})]))
+    for a in SAME:
+        for t in ("{%% if %s is sameas %s %%}same{%% else %%}diff{%% endif %%}" % (a, a), "{{ %s is sameas(%s) }}" % (a, a),
+                  "{{ (%s is sameas %s) and 1 }}" % (a, a)):
+            out.append(("C08:sameas-constants", [("optimized", {}, t, {}), ("unoptimized", {"optimized": False}, t, {})]))
+    fins = {"none-to-empty": (lambda x: "" if x is None else x), "wrap": (lambda x: "<%s>" % (x,)), "identity": (lambda x: x)}
+    for fname, fin in fins.items():
+        for ae in (False, True):
+            for c, v in (("none", None), ("1", 1), ('"<a>"', "<a>"), ('"<b>"|safe', None), ("1 + 1", 2), ('"a" ~ "<"', "a<")):
+                kw = {"finalize": fin, "autoescape": ae}
+                grp = [("optimized", kw, "{{ %s }}" % c, {}), ("unoptimized", dict(kw, optimized=False), "{{ %s }}" % c, {})]
+                if v is not None or c == "none":
+                    grp.append(("constant-lifted", kw, "{{ kk }}", {"kk": v}))
+                out.append(("C08:finalize-order:%s:ae=%d" % (fname, ae), grp))
+    return out
+
+
+def run_template_stream(ctx):
+    import jinja2
+    reported = {}
+    for sig, grp in template_stream(ctx):
+        res = []
+        for label, kw, t, data in grp:
+            try:
+                env = jinja2.Environment(**kw)
+                r = ("ok", env.from_string(t).render(**data))
+            except Exception as ex:
+                r = ("err", type(ex).__name__)
+            res.append((label, r))
+        base = res[0]
+        case = {"kind": "template", "signature": sig, "group": [(l, {k: (v if isinstance(v, (bool, int)) else "<function>") for k, v in kw.items()}, t, repr(d)) for l, kw, t, d in grp]}
+        ok = True
+        for label, r in res[1:]:
+            same = r == base[1] or (r[0] == "err" and base[1][0] == "err")
+            if not same:
+                ok = False
+                reported[sig] = reported.get(sig, 0) + 1
+                if reported[sig] > 2:      # lib keeps at most 50 rejections: leave room for every class
+                    continue
+                ctx.reject(dict(case, base=repr(base), other=repr((label, r))),
+                           f"{grp[0][2]!r}: render({base[0]}) = {base[1]!r} but render({label}) = {r!r}", sig)
+        ctx.case(sample={"template": grp[0][2], "class": sig} if ok and len(ctx.samples) < 6 and "finalize" in sig else None,
+                 key=("tpl", sig, grp[0][2]))
+        ctx.count("tpl_" + sig.split(":")[1])
+        if ok:
+            ctx.validated()
+
+
 def run(ctx):
     X.use_jinja()
     ctx.extra["rule"] = RULE
@@ -248,6 +323,7 @@ def run(ctx):
         "dict literals with unhashable constant keys are outside the model (the real optimizer raises TypeError at compile time)",
     ]
     ctx.proof("C08")
+    run_template_stream(ctx)
     depth = ctx.size(4, 5)
     n = ctx.size(700, 15000)
     g = X.EGen(ctx.rng, const_rich=True)
